@@ -28,15 +28,20 @@ type optSet struct {
 	NoGrowSync     bool
 	InitialMmap    int
 	Strict         bool
+	MaxSize        int
 }
 
 func (o optSet) String() string {
-	return fmt.Sprintf("ps=%d fl=%s nofls=%v nogrow=%v mmap=%d strict=%v", o.PageSize, o.Freelist, o.NoFreelistSync, o.NoGrowSync, o.InitialMmap, o.Strict)
+	s := fmt.Sprintf("ps=%d fl=%s nofls=%v nogrow=%v mmap=%d strict=%v", o.PageSize, o.Freelist, o.NoFreelistSync, o.NoGrowSync, o.InitialMmap, o.Strict)
+	if o.MaxSize > 0 {
+		s += fmt.Sprintf(" maxsize=%d", o.MaxSize)
+	}
+	return s
 }
 
 func (o optSet) boltOptions() bolt.Options {
 	return bolt.Options{PageSize: o.PageSize, FreelistType: o.Freelist, NoFreelistSync: o.NoFreelistSync,
-		NoGrowSync: o.NoGrowSync, InitialMmapSize: o.InitialMmap, Timeout: time.Second}
+		NoGrowSync: o.NoGrowSync, InitialMmapSize: o.InitialMmap, Timeout: time.Second, MaxSize: o.MaxSize}
 }
 
 func randOpts(rng *rand.Rand) optSet {
@@ -243,8 +248,13 @@ func apiprog() {
 		if pi%5 == 4 {
 			ops = g.CursorProgram()
 		}
+		if pi%6 == 3 {
+			ops = g.MoveProgram()
+		}
 		ops = append(ops, Op{K: "beginr", Tx: "rfinal"}, Op{K: "dump", Tx: "rfinal"}, Op{K: "endr", Tx: "rfinal"})
+		inFlight("apiprog", map[string]any{"options": o.String(), "opts": o, "ops": opLines(ops)})
 		res := runAPI(dir, fmt.Sprintf("p%d", pi), o, ops, true)
+		inFlight("apiprog", nil)
 		checkAPIResult(rep, o, res)
 	}
 	rep.finish(start)
